@@ -38,7 +38,12 @@
    ("laterFork": all its time fields in b, signed with b), an object wholly in b signed with a ("laterForkBad"), the
    plain object in a, the object in a signed with b ("wrongFork"), the fork-straddling objects.  The verdict of each
    call is what Valid / MayEnter / MustEnter say for that call ALONE - only an implementation could remember the fork
-   version it resolved for an earlier call (control DomainCache).
+   version it resolved for an earlier call (control DomainCache);
+   and (d) LARGE PEER SETS: one peer message with the partial signatures of K = 5, 8, 12, 24 different validators
+   (same duty, the sender's share index): all valid (every entry must enter), ONE bad entry (signed by another share /
+   by another validator's share / content changed after signing / validator not in the lock; first or last validator),
+   two bad entries - nothing of a set with a bad entry may enter, however many entries the set has and wherever the
+   bad one sits (control PeerVerifyLimit: only some entries of a set are verified).
 
    Two descriptions are related here: Valid/MayEnter is the property as stated; PeerAdmits/VCEntryOK transcribe the
    checks of the code in the order the code makes them.  The model checker shows that the transcription implies the
@@ -61,6 +66,7 @@ CONSTANTS N,                \* shares (= nodes) per validator, indices 1..N
                             \* (sum of the signatures against the sum of the claimed public shares) ("none" = as coded)
           MemoVerifier,     \* control: the peer verifier remembers (public share, signature) of verified partials and
                             \* admits a remembered pair without looking at the object it now comes with
+          PeerVerifyLimit,  \* control: parsigex.handle verifies only this many entries (any of them) of a set (0 = as coded: all)
           DomainCache,      \* control: the validator API remembers, per domain type, the signing domain of the LATEST epoch
                             \* it resolved one for, and uses it for every object of that or an earlier epoch
           ReplayPolicy      \* "admit" as coded (no handler keeps a history: a re-submitted valid partial enters again) |
@@ -273,6 +279,21 @@ ForkSeqsOf(p, k) ==
               t \in FewVersionsOf(k) \X (1..N) \X (1..V)}
 ForkSeqsOn(paths) == UNION {ForkSeqsOf(pk[1], pk[2]) : pk \in {pk \in paths \X Kinds : pk[2] \in KindsOn(pk[1])}}
 
+(* --- large peer sets: ONE peer message with the entries of validators 1..K (K = the case's `ai`), all signed with the
+   sender's share; bad[k] = "" a valid entry, otherwise the class of the one alteration of entry k --- *)
+BigKs == {K \in {5, 8, 12, 24} : K <= V}
+BigBadSeq == <<"otherShare", "otherVal", "field", "unknownLock">>
+BigBadClasses == {BigBadSeq[i] : i \in 1..4}
+NextBad(b) == LET i == CHOOSE j \in 1..4 : BigBadSeq[j] = b IN BigBadSeq[(i % 4) + 1]
+BigPatternsOf(K) ==
+  LET good == [k \in 1..K |-> ""]
+  IN  {good} \cup {[good EXCEPT ![q] = b] : q \in {1, K}, b \in BigBadClasses}
+             \cup {[good EXCEPT ![1] = b, ![K] = NextBad(b)] : b \in BigBadClasses}
+BigCasesOf(k) ==
+  UNION {{Case("peer", k, DefVer(k), t[1], 1, A("big", t[2], "")) @@ [bad |-> q] : q \in BigPatternsOf(t[2])} :
+         t \in (1..N) \X BigKs}
+BigCases == UNION {BigCasesOf(k) : k \in Kinds}
+
 \* As coded: go-eth2-client's VersionedSignedProposal.Slot() answers "unsupported version" for phase0 and altair
 \* blocks, so both handlers refuse them whatever the signature.  The statement is silent about such objects.
 Supported(k, ver) == ~(k = "proposal" /\ ver \in {"phase0", "altair"})
@@ -337,6 +358,17 @@ BEntry(b, k) ==
 MsgB(b) == [path |-> b.path, kind |-> b.kind, node |-> IF b.path = "vc" THEN b.node ELSE (b.sender % N) + 1,
             sender |-> b.sender, alt |-> "batch", entries |-> [k \in DOMAIN b.pat.vs |-> BEntry(b, k)],
             dt |-> DutyOf[b.kind], window |-> "in", payload |-> TRUE, supported |-> Supported(b.kind, b.ver)]
+\* the entries of a large peer set
+BigEntry(b, k) ==
+  LET own == Own(b)  e == Base(k, own, b.kind)
+  IN  CASE b.bad[k] = "" -> e
+        [] b.bad[k] = "otherShare" -> [e EXCEPT !.by = <<k, (own % N) + 1>>]
+        [] b.bad[k] = "otherVal" -> [e EXCEPT !.by = <<(k % b.ai) + 1, own>>]
+        [] b.bad[k] = "field" -> [e EXCEPT !.cur = "changed"]
+        [] b.bad[k] = "unknownLock" -> [e EXCEPT !.val = V + 1, !.by = <<V + 1, own>>]
+MsgBig(b) == [path |-> "peer", kind |-> b.kind, node |-> (b.sender % N) + 1, sender |-> b.sender, alt |-> "big",
+              entries |-> [k \in 1..b.ai |-> BigEntry(b, k)], dt |-> DutyOf[b.kind], window |-> "in", payload |-> TRUE,
+              supported |-> Supported(b.kind, b.ver)]
 
 (* ------------------------------------------ the property, as stated ---------------------------------------- *)
 Valid(e) == /\ e.sk = "bls" /\ e.val \in 1..V /\ e.idx \in 1..N
@@ -353,7 +385,7 @@ MayEnter(m, k) ==
 \* a batch of valid elements of different validators enters entirely
 DistinctVals(m) == \A j, k \in DOMAIN m.entries : j # k => m.entries[j].val # m.entries[k].val
 MustEnter(m) == /\ \/ m.alt \in {"none", "futureEdge", "straddleOK", "laterFork"}
-                   \/ m.alt = "batch" /\ DistinctVals(m) /\ \A k \in DOMAIN m.entries : Valid(m.entries[k])
+                   \/ m.alt \in {"batch", "big"} /\ DistinctVals(m) /\ \A k \in DOMAIN m.entries : Valid(m.entries[k])
                 /\ ~(m.path = "vc" /\ m.kind = "registration") /\ m.supported
 
 (* ------------------------------------------------ the machine ---------------------------------------------- *)
@@ -392,7 +424,11 @@ PeerVerify(m, e) == /\ e.val \in DOMAIN Lock                  \* "unknown pubkey
                        IN  i \in DOMAIN Lock[e.val]           \* "invalid shareIdx"
                            /\ \/ VerifyEth2(Lock[e.val][i], e, m)
                               \/ MemoVerifier /\ e.ddom # "none" /\ <<Lock[e.val][i], SigId(e)>> \in seen
-PeerAdmits(m) == PeerGate(m) /\ PeerDecodes(m) /\ \A k \in DOMAIN m.entries : PeerVerify(m, m.entries[k])
+PeerAdmits(m) == /\ PeerGate(m) /\ PeerDecodes(m)
+                 /\ IF PeerVerifyLimit = 0 THEN \A k \in DOMAIN m.entries : PeerVerify(m, m.entries[k])
+                    ELSE \E S \in SUBSET DOMAIN m.entries :
+                           /\ Cardinality(S) = IF Len(m.entries) < PeerVerifyLimit THEN Len(m.entries) ELSE PeerVerifyLimit
+                           /\ \A k \in S : PeerVerify(m, m.entries[k])
 \* what a remembering verifier would have added to its memo during the current call
 VerifiedNow == IF msg.path = "peer" /\ PeerGate(msg) /\ PeerDecodes(msg)
                THEN {<<Lock[msg.entries[k].val][PeerKeyIdx(msg, msg.entries[k])], SigId(msg.entries[k])>> :
@@ -448,6 +484,7 @@ Start(c, m) == /\ phase \in {"idle", "done"} /\ msg' = m /\ phase' = "recv" /\ d
                /\ dcache' = IF DomainCache THEN dcache \cup ResolvedNow ELSE dcache
 Submit(c) == Start(c, Msg(c))
 SubmitBatch(b) == calls = <<>> /\ Start(b, MsgB(b))
+SubmitBig(b) == calls = <<>> /\ Start(b, MsgBig(b))
 Deliver(k) == /\ phase = "recv" /\ k \in DOMAIN msg.entries /\ k \notin delivered
               /\ TRUE \in Choices(msg, k)
               /\ delivered' = delivered \cup {k} /\ UNCHANGED <<msg, phase, calls, seen, admitted, dcache>>
@@ -457,12 +494,17 @@ Return == /\ phase = "recv"
 \* one single-element call, one batch, up to 3 calls that carry the same signature, or up to 3 calls of a fork sequence
 Next == \/ phase = "idle" /\ \E c \in CasesOn(Paths) : Submit(c)
         \/ phase = "idle" /\ \E b \in BatchCasesOn(Paths) : SubmitBatch(b)
+        \/ phase = "idle" /\ \E b \in BigCases : SubmitBig(b)
         \/ phase = "done" /\ Len(calls) \in 1..2 /\ SeqCase(calls[1])
                           /\ \E c \in FollowSet(calls[1]) : Submit(c)
         \/ phase = "done" /\ Len(calls) \in 1..2 /\ msg.alt # "batch"
                           /\ \E c \in ForkFollow(calls) : Submit(c)
-        \/ (\E k \in 1..3 : Deliver(k)) \/ Return
+        \/ (\E k \in DOMAIN msg.entries : Deliver(k)) \/ Return
 Spec == Init /\ [][Next]_vars
+\* the large peer sets alone (their own exhaustive configuration, V >= 5)
+BigNext == \/ phase = "idle" /\ \E b \in BigCases : SubmitBig(b)
+           \/ (\E k \in DOMAIN msg.entries : Deliver(k)) \/ Return
+BigSpec == Init /\ [][BigNext]_vars
 
 TypeOK == phase \in {"idle", "recv", "done"} /\ delivered \subseteq DOMAIN msg.entries
 OnlyValidEnter == \A k \in delivered : MayEnter(msg, k)
